@@ -10,7 +10,7 @@ var corpusC15 = []string{
 	`a == -1.5`, `a == 0`, `a == "\t\x41é"`, "a == `raw`", `a.0 == 1`, `a/b == 1`, `a == b.c`, `1 in a`, `-1.5 in a`, `a == "/x/y"`, `a == ""`, `"" == 1`, `"/" == 1`,
 	`a == 1 and (b == 2 or not c in d)`, `a == "é"`, ` a==1 `, "a\t==\n1", `a == 1 or b == 2 or c == 3`, `a == 1 and b == 2 and c == 3`, `a == 1 or b == 2 and c == 3`,
 	`a == 1 or any b as x { x == 1 }`, `(any b as x { x == 1 }) and a == 1`, `not == 1`, `in in in`, `any == 1`, `all.x is empty`, `a == "/a~1b/~0"`, `"/a~1b/~0c" == 1`, `a == "/é/١"`, `"/é" == 1`,
-	`((a == 1))`, `(a == 1) and (b == 2)`, `a == 1 and not (b == 2)`, `a == -0`, `a == 0.50`, `any contains as x { x == 1 }`, `all matches as v { v == 1 }`, `any in as i { i == 1 }`, `a == 1 or any in as x { x == 1 }`, `(all contains as x { x == 1 })`, `notes == 1`, `not notes == 1`, `android == 1 and orb == 2`, `inx in iny`, `anyx == 1 or allx is empty`, `a == foo["bar"]`, `a == foo["a.b"]`, `a == foo["a b"].c`, `foo[""] in x`, "a == foo[`x-y`]", `a[ "b" ] == 1`, `a == x/y`,
+	`((a == 1))`, `(a == 1) and (b == 2)`, `a == 1 and not (b == 2)`, `a == -0`, `a == 0.50`, `any contains as x { x == 1 }`, `all matches as v { v == 1 }`, `any in as i { i == 1 }`, `a == 1 or any in as x { x == 1 }`, `(all contains as x { x == 1 })`, "a == \"x\uFFFDy\"", "a == 1\uFFFD", "a == `\uFFFD`", "\uFFFD == 1", "a[\"\uFFFD\"] == 1", "a == 1 \uFFFD and and (", "a\uFFFD == 1", `notes == 1`, `not notes == 1`, `android == 1 and orb == 2`, `inx in iny`, `anyx == 1 or allx is empty`, `a == foo["bar"]`, `a == foo["a.b"]`, `a == foo["a b"].c`, `foo[""] in x`, "a == foo[`x-y`]", `a[ "b" ] == 1`, `a == x/y`,
 	`"/a/~01" == 1`, `"/~10" == 1`, `a == "/~01"`, `a == 1 or a == 1`, `a == 1 and a == 1`, `a matches "x" or a matches "y"`, `m["b.c"] == 1 and m.b.c == 1`, `a == 1 or (a == 1 and b == 2)`,
 	`foo["bar"] in baz`, `foo.bar in baz`, `"/x/y" in foo`, `(((((a == 1)))))`, `not ((((not (a in b)))))`, `(((((((a == 1)))))))`, "a == `x\ry`", "a == \"x\ny\"", "a[`k\r`] == 1", "a == \"x\ry\"",
 	// rejected
